@@ -130,6 +130,8 @@ func selName(i int) string {
 func checkProgram(rep *lib.Report, name, dir, module string, files map[string]string, scen []scenario, native bool) {
 	lib.WriteProgram(dir, module, files)
 	t0 := time.Now()
+	// native == false: a program with standard-library imports, used for the model correspondence and the
+	// set relations only (no execution-set criterion: too large; no native run: nothing is logged)
 	state, err := loadState(dir, true)
 	timed("load_s", t0)
 	if err != nil {
@@ -140,7 +142,7 @@ func checkProgram(rep *lib.Report, name, dir, module string, files map[string]st
 	t0 = time.Now()
 	F := dumpFacts(prog)
 	id := name
-	in := F.oracleInput(id)
+	in := F.oracleInput(id, !native)
 	timed("dump_s", t0)
 	os.WriteFile(filepath.Join(dir, "oracle_in.txt"), in, 0o644)
 	if len(F.problems) > 0 {
@@ -235,7 +237,7 @@ func checkProgram(rep *lib.Report, name, dir, module string, files map[string]st
 				if !real[i][ff.id] {
 					why, has := or.missing[ff.id]
 					if !has {
-						why = "not-in-exec-set:" + reasonOfFn(F, ff)
+						why = classifyMiss(F, real[0], ff)
 					}
 					rep.Count(fmt.Sprintf("ptr-cg-miss(%s):%s", selName(i), why))
 					if i != 0 {
@@ -257,6 +259,8 @@ func checkProgram(rep *lib.Report, name, dir, module string, files map[string]st
 		rep.Count("no-pointer-analysis")
 	}
 	mismatch := false
+	execIDs := map[int]bool{}
+	staticMiss := map[int]string{}
 	for i := range selections {
 		rs := showSet(real[i])
 		if rs != or.r[i] {
@@ -302,14 +306,16 @@ func checkProgram(rep *lib.Report, name, dir, module string, files map[string]st
 		rep.Case(fmt.Sprintf("%s/%d>%d", sc.shape, sc.hostPkg, sc.tgtPkg))
 		rep.Count("shape:" + sc.shape)
 	}
+	_ = mismatch
 	if !native {
-		// without a native run: criterion misses with an unknown cause are reported (static)
-		for g, why := range or.missing {
-			if !knownReason(why) {
-				rep.Fail("reach-miss:"+why, "static: "+F.fns[g].fn.String()+" is in the abstract execution set but not reported", []byte(sourceOf(dir, files)), mismatch)
-			}
-		}
+		rep.Count("std-programs(correspondence-only)")
 		return
+	}
+	// criterion misses with an unknown cause (the known causes are reported when a native run confirms them)
+	for g, why := range or.missing {
+		if !knownReason(why) {
+			staticMiss[g] = why
+		}
 	}
 	// native ground truth
 	t0 = time.Now()
@@ -383,6 +389,7 @@ func checkProgram(rep *lib.Report, name, dir, module string, files map[string]st
 		nExec++
 		ok = false
 		for _, c := range cands {
+			execIDs[c.id] = true
 			if real[0][c.id] {
 				ok = true
 			}
@@ -410,6 +417,49 @@ func checkProgram(rep *lib.Report, name, dir, module string, files map[string]st
 		rep.Fail("reach-miss:"+why, what, []byte(what+"\n"+sourceOf(dir, files)), false)
 	}
 	rep.Count(fmt.Sprintf("native-executed-functions<=%d", bucket(nExec)))
+	var sm []string
+	for g, why := range staticMiss {
+		if !execIDs[g] {
+			sm = append(sm, fmt.Sprintf("%s (%s)", F.fns[g].fn.String(), why))
+		}
+	}
+	if len(sm) > 0 {
+		sort.Strings(sm)
+		rep.Fail("criterion-miss:"+name, "the execution-set criterion fails for a cause that is not a known finding and the native run did not execute the function: "+sm[0],
+			[]byte(strings.Join(sm, "\n")+"\n"+sourceOf(dir, files)), true)
+	}
+}
+
+// classifyMiss names the shape of a miss when the oracle gave no cause (programs analysed without the
+// execution set): an unvisited operand position of a reported function that holds the function, or a
+// conversion to an interface in a reported function whose method set contains it (it can then only have been
+// invoked after an interface-to-interface widening).
+func classifyMiss(F *facts, reported map[int]bool, g *fnFacts) string {
+	for id := range reported {
+		for _, ins := range F.fns[id].instrs {
+			kind, ops, _ := operandFields(ins)
+			for _, o := range ops {
+				if fn, ok := o.v.(*ssa.Function); ok && fn == g.fn {
+					return kind + "." + o.field
+				}
+			}
+		}
+	}
+	for id := range reported {
+		for _, ins := range F.fns[id].instrs {
+			mi, ok := ins.(*ssa.MakeInterface)
+			if !ok {
+				continue
+			}
+			ms := F.prog.MethodSets.MethodSet(mi.X.Type())
+			for i := 0; i < ms.Len(); i++ {
+				if F.prog.MethodValue(ms.At(i)) == g.fn {
+					return "widening"
+				}
+			}
+		}
+	}
+	return "unexplained:" + reasonOfFn(F, g)
 }
 
 func knownReason(why string) bool {
@@ -488,7 +538,128 @@ func main() {
 		dir := lib.WorkDir(prop, name)
 		checkProgram(rep, name, dir, "vprog", files, scen, true)
 	}
+	// 3. a program over standard-library packages: many more instruction kinds and operand positions
+	{
+		dir := lib.WorkDir(prop, "std")
+		checkProgram(rep, "std", dir, "vstd", map[string]string{"main.go": stdProgram}, nil, false)
+	}
 	rep.Extra["shapes"] = len(shapes)
 	rep.Extra["timing"] = timing
 	rep.Finish()
 }
+
+const stdProgram = `package main
+
+import (
+	"errors"
+	"sort"
+	"strings"
+	"sync"
+)
+
+type shape interface {
+	Area() int
+	Name() string
+}
+
+type sq struct{ s int }
+
+func (q sq) Area() int    { return q.s * q.s }
+func (q sq) Name() string { return "sq" }
+
+type rect struct{ w, h int }
+
+func (r *rect) Area() int    { return r.w * r.h }
+func (r *rect) Name() string { return "rect" }
+
+type byArea []shape
+
+func (b byArea) Len() int           { return len(b) }
+func (b byArea) Less(i, j int) bool { return b[i].Area() < b[j].Area() }
+func (b byArea) Swap(i, j int)      { b[i], b[j] = b[j], b[i] }
+
+var errNope = errors.New("nope")
+
+var once sync.Once
+
+var registry = map[string]func(int) shape{
+	"sq":   func(n int) shape { return sq{n} },
+	"rect": func(n int) shape { return &rect{n, n + 1} },
+}
+
+func build(names []string) ([]shape, error) {
+	var out []shape
+	for i, n := range names {
+		mk, ok := registry[n]
+		if !ok {
+			return nil, errNope
+		}
+		out = append(out, mk(i))
+	}
+	return out, nil
+}
+
+func describe(ss []shape) string {
+	var b strings.Builder
+	for _, s := range ss {
+		switch v := s.(type) {
+		case sq:
+			b.WriteString(strings.ToUpper(v.Name()))
+		case *rect:
+			b.WriteString(v.Name())
+		}
+	}
+	return b.String()
+}
+
+func worker(in <-chan int, out chan<- int, wg *sync.WaitGroup) {
+	defer wg.Done()
+	for {
+		select {
+		case n, ok := <-in:
+			if !ok {
+				return
+			}
+			out <- n * 2
+		}
+	}
+}
+
+func safe(f func()) (err error) {
+	defer func() {
+		if r := recover(); r != nil {
+			err = errNope
+		}
+	}()
+	f()
+	return nil
+}
+
+func main() {
+	once.Do(func() { println("once") })
+	ss, err := build([]string{"sq", "rect", "sq"})
+	if err != nil {
+		panic(err)
+	}
+	sort.Sort(byArea(ss))
+	sort.Slice(ss, func(i, j int) bool { return ss[i].Name() < ss[j].Name() })
+	println(describe(ss))
+	in, out := make(chan int), make(chan int, 8)
+	var wg sync.WaitGroup
+	wg.Add(1)
+	go worker(in, out, &wg)
+	in <- 1
+	close(in)
+	wg.Wait()
+	f := strings.NewReplacer("a", "b").Replace
+	println(f("aa"), <-out)
+	_ = safe(func() { panic("x") })
+	var arr [3]func() int
+	for i := range arr {
+		i := i
+		arr[i] = func() int { return i }
+	}
+	sl := arr[:]
+	println(sl[1](), len(strings.Fields(" a b ")))
+}
+` + ""
